@@ -5,7 +5,7 @@ package engines
 import "filippo.io/age/simyield"
 
 // Built against a scratch copy of the tree rewritten by cmd/astyield: every
-// statement of the library's functions calls simyield.Y() first.
+// statement of the library's functions calls simyield.Y() (or H() inside methods of key objects) first.
 func init() {
-	stmtHookSetter = func(h func()) { simyield.Hook = h }
+	stmtHookSetter = func(h func(hot bool)) { simyield.Hook = h }
 }
